@@ -349,7 +349,7 @@ def run(chk):
             trunc.append(mutate(rng, s))
     layout = ["".join(rng.choice("a \t\n\r#():\"") for _ in range(rng.randint(3, 10))) for _ in range(600 if quick else 6000)]
     groups = [("lexical", lexs, 150), ("random-utf8", rand, 150), ("literals", lits, 150), ("layout", layout, 150),
-              ("truncated-mutated", trunc, 8), ("nonascii-truncations", nonascii_truncations(rng, 1200 if quick else None), 300)]
+              ("truncated-mutated", trunc, 8), ("nonascii-truncations", nonascii_truncations(rng, 800 if quick else None), 300)]
     model_ok = vlib.coq_build(["Lex/Chars.vo", "Lex/Layout.vo"])[0]
     if not model_ok:
         res["tie_ok"] = False
@@ -368,6 +368,10 @@ def run(chk):
         model = vlib.coq_eval(c10.REQ, "list N", c10.RUN, [c10.coq_src(s) for s in srcs], shard=shard, tag="c11" + name)
         for s, r, m in zip(srcs, real, model):
             n_corr += 1
+            if r[0] == "panic":
+                # the model is total (C11_lex_total): a panic of the real lexer is a failing input of the property itself
+                fails.append({"group": "corr-" + name, "source": s, "stages": "lex=panic", "violation": "panic lex " + r[1][:300]})
+                continue
             why = c10.compare_model(s, r, m)
             if why:
                 corr_bad.append({"group": name, "source": s[:400], "why": why})
